@@ -44,7 +44,21 @@ impl Vm {
         let mut lambda = Lambda::new_from_iof(vec![], vec![], &entry_lambda, &[], false);
         lambda.set_top_level();
         lambda.emit(OpCode::Enter);
-        self.compile(&mut lambda, true, expr)?;
+        match expr {
+            // A begin at the outermost level splices its forms into the top level (R7RS 5.1):
+            // a definition inside it defines a global.
+            Cell::Pair(car, cdr)
+                if car.is_symbol_str("begin") && cdr.is_pair() && cdr.is_list() =>
+            {
+                let mut rest = &**cdr;
+                while rest.is_pair() {
+                    let next = rest.cdr().unwrap();
+                    self.compile(&mut lambda, next.is_nil(), rest.car().unwrap())?;
+                    rest = next;
+                }
+            }
+            _ => self.compile(&mut lambda, true, expr)?,
+        }
         lambda.emit(OpCode::Ret);
         trace!("main: \n{}", self.decompile_text(&lambda));
         let lambda = self.heap.put(lambda);
